@@ -197,10 +197,13 @@ def number_matches(F):
             continue
         sc = _strip(n["scrut"])
         if sc.get("k") == "Call" and short(callee_of(sc) or "") == "from_str_radix":
-            radix = lit_value(sc["args"][1])
             import re
+            from .p_c13 import radix_sites
+            alts = next((a for c_, a, _ in radix_sites(F)[1] if c_ is sc), None)
+            radixes = [r for _, r in alts] if alts else [lit_value(sc["args"][1])]
             m = re.search(r"<impl (\w+)>::from_str_radix", callee_of(sc) or "")
-            out.append(({16: "hex", 2: "binary", 10: "decimal", 8: "octal"}.get(radix, f"radix{radix}"), m.group(1) if m else None, n))
+            for radix in radixes:
+                out.append(({16: "hex", 2: "binary", 10: "decimal", 8: "octal"}.get(radix, f"radix{radix}"), m.group(1) if m else None, n))
         elif sc.get("k") == "MethodCall" and sc["name"] == "parse":
             out.append(("decimal", (sc.get("gargs") or [None])[-1], n))
     return f, out
